@@ -38,11 +38,13 @@
 #include <Bpp/Numeric/Prob/DiscreteDistribution.h>
 #include <Bpp/Io/BppODiscreteDistributionFormat.h>
 #include <Bpp/Numeric/Function/Operators/ComputationTree.h>
+#include <Bpp/Numeric/Function/Functions.h>
 #include <unistd.h>
 #include <fcntl.h>
 #include <sys/wait.h>
 #include <sys/select.h>
 #include <sys/time.h>
+#include <sys/resource.h>
 #include <signal.h>
 #include <cerrno>
 using namespace bpp; using namespace verif;
@@ -57,6 +59,26 @@ static std::string showMap(const std::map<std::string, std::string>& m) {
   for (const auto& kv : m) s += " " + strToHex(kv.first) + " " + strToHex(kv.second);
   return s;
 }
+// the functions a formula may name (ComputationTree): plain, first-order and second-order derivable
+class HF1 : public TestFunction, public virtual FirstOrderDerivable {
+public:
+  HF1* clone() const override { return new HF1(*this); }
+  void enableFirstOrderDerivatives(bool) override {}
+  bool enableFirstOrderDerivatives() const override { return true; }
+  double getFirstOrderDerivative(const std::string& v) const override { return 2 * parameter(v).getValue(); }
+};
+class HF2 : public TestFunction, public virtual SecondOrderDerivable {
+public:
+  HF2* clone() const override { return new HF2(*this); }
+  void enableFirstOrderDerivatives(bool) override {}
+  bool enableFirstOrderDerivatives() const override { return true; }
+  double getFirstOrderDerivative(const std::string& v) const override { return 2 * parameter(v).getValue(); }
+  void enableSecondOrderDerivatives(bool) override {}
+  bool enableSecondOrderDerivatives() const override { return true; }
+  double getSecondOrderDerivative(const std::string&) const override { return 2; }
+  double getSecondOrderDerivative(const std::string&, const std::string&) const override { return 0; }
+};
+
 static char chr(const std::string& h) { std::string s = hexToStr(h); return s.empty() ? '\0' : s[0]; }
 static const char* b01(bool b) { return b ? "1" : "0"; }
 
@@ -155,9 +177,11 @@ static std::string op(const Toks& t) {
       std::map<std::string, std::string> m; AttributesTools::getAttributesMap(lines, m, hexToStr(t[1]));
       return showMap(m);
     }
-    if (o == "at.vars") {        // at.vars code beg end n k1 v1 ...
+    if (o == "at.vars" || o == "at.varsE") {        // at.vars code beg end n k1 v1 ...   (at.varsE: with an error stream)
       std::map<std::string, std::string> m; size_t n = toU(t[4]);
       for (size_t i = 0; i < n; ++i) m[hexToStr(t[5 + 2 * i])] = hexToStr(t[6 + 2 * i]);
+      struct Restore { std::shared_ptr<OutputStream> old; ~Restore() { ApplicationTools::error = old; } } restore{ApplicationTools::error};
+      if (o == "at.varsE") ApplicationTools::error = std::make_shared<NullOutputStream>();
       AttributesTools::resolveVariables(m, chr(t[1]), chr(t[2]), chr(t[3]));
       return showMap(m);
     }
@@ -179,16 +203,21 @@ static std::string op(const Toks& t) {
       return "ok " + std::to_string(dt->getNumberOfRows()) + " " + std::to_string(dt->getNumberOfColumns());
     }
     if (o == "dd.read") {
-      BppODiscreteDistributionFormat f(false);
-      auto d = f.readDiscreteDistribution(hexToStr(t[1]), t.size() > 2 ? t[2] == "1" : true);
+      // flag: bit 0 = parseArguments, bit 1 = verbose (the messages go to the null sink)
+      const unsigned long flag = t.size() > 2 ? toU(t[2]) : 1;
+      BppODiscreteDistributionFormat f((flag & 2) != 0);
+      auto d = f.readDiscreteDistribution(hexToStr(t[1]), (flag & 1) != 0);
       return "ok " + std::to_string(d->getNumberOfCategories());
     }
     if (o == "nc.vec") { auto v = NumCalcApplicationTools::getVector(hexToStr(t[1])); return "ok " + std::to_string(v.size()); }
     if (o == "nc.seq") { auto v = NumCalcApplicationTools::seqFromString(hexToStr(t[1]), hexToStr(t[2]), hexToStr(t[3])); return "ok " + std::to_string(v.size()); }
     if (o == "ct.parse") {
       std::map<std::string, std::shared_ptr<FunctionInterface>> fn;
+      for (const char* n : {"a", "b", "x", "y", "f"}) fn[n] = std::make_shared<TestFunction>(1., 2.);
+      fn["g"] = std::make_shared<HF1>(); fn["h"] = std::make_shared<HF2>();
       ComputationTree ct(hexToStr(t[1]), fn);
-      return "ok";
+      std::string out = ct.output();
+      return std::string("ok ") + b01(ct.isAllSum()) + " " + std::to_string(out.size());
     }
   } catch (Exception& e) { return "exc:bpp"; }
   catch (std::exception& e) { return "exc:std"; }
@@ -253,9 +282,9 @@ static Toks decodeFuzz(const uint8_t* data, size_t size) {
     case 18: { static const char* n[] = {"ft.name", "ft.parent", "ft.ext"}; t = {n[o % 3], H(0)}; if (o % 3 != 2) t.push_back(C("/\\.", 3, o >> 2)); break; }
     case 19: t = {"ic.read", H(0)}; break;
     case 20: t = {"dt.read", H(0), strToHex(F(1)), (o & 1) ? "1" : "0", std::to_string((int)((o >> 1) % 5) - 1)}; break;
-    case 21: t = {"dd.read", strToHex(keepNumbersSmall(F(0), false)), (o & 1) ? "1" : "0"}; break;
-    case 22: t = {"nc.vec", strToHex(keepNumbersSmall(F(0), true))}; break;
-    case 23: t = {"nc.seq", strToHex(keepNumbersSmall(F(0), false)), H(1), H(2)}; break;
+    case 21: t = {"dd.read", strToHex(keepNumbersSmall(F(0), true)), std::to_string(o & 3)}; break;   // no exponent: the discretisations cost in the magnitude of their parameters
+    case 22: t = {"nc.vec", H(0)}; break;          // any numeral: the readers refuse what describes more than 10^7 values
+    case 23: t = {"nc.seq", H(0), H(1), H(2)}; break;
     case 24: t = {"ct.parse", H(0)}; break;
   }
   return t;
@@ -285,8 +314,19 @@ static void armCpuTimer(long ms) {
   setitimer(ITIMER_PROF, &it, nullptr);
 }
 
+#ifdef VERIF_COVERAGE
+// coverage build (tools/c16_coverage.py): the counters of a worker are written out when it ends,
+// also when its CPU-time budget runs out
+extern "C" int __llvm_profile_write_file(void);
+static void dumpAndDie(int) { __llvm_profile_write_file(); _exit(4); }
+#endif
+
 static void worker(const std::vector<Toks>& ops, size_t from, int fd, long cpuMs) {
+#ifdef VERIF_COVERAGE
+  signal(SIGPROF, dumpAndDie);
+#else
   signal(SIGPROF, SIG_DFL);
+#endif
   for (size_t k = from; k < ops.size(); ++k) {
     armCpuTimer(cpuMs);
     std::string a = op(ops[k]);
@@ -295,10 +335,19 @@ static void worker(const std::vector<Toks>& ops, size_t from, int fd, long cpuMs
     size_t off = 0;
     while (off < a.size()) { ssize_t w = write(fd, a.data() + off, a.size() - off); if (w < 0) { if (errno == EINTR) continue; _exit(3); } off += (size_t)w; }
   }
+#ifdef VERIF_COVERAGE
+  __llvm_profile_write_file();
+#endif
   _exit(0);
 }
 
 int main() {
+  // The formula parser recurses once per nesting level: a 4 KiB formula nests ~4000 deep, which an ordinary
+  // build handles within the default 8 MiB stack (measured: plain build, "-" x 4095, "(" x 2047, "exp(" x 1000)
+  // but the sanitizer build, whose frames are several times larger, does not.  The workers get a 128 MiB stack
+  // so that a stack overflow reported here is the library's and not the instrumentation's.
+  { struct rlimit rl; if (getrlimit(RLIMIT_STACK, &rl) == 0) { rlim_t want = 128ul << 20; if (rl.rlim_max != RLIM_INFINITY && rl.rlim_max < want) want = rl.rlim_max;
+      if (rl.rlim_cur == RLIM_INFINITY || rl.rlim_cur < want) { rl.rlim_cur = want; setrlimit(RLIMIT_STACK, &rl); } } }
   // every message of the library goes to a sink (a null `warning` would be dereferenced by getAttributesMap)
   ApplicationTools::error = nullptr;
   ApplicationTools::message = std::make_shared<NullOutputStream>();
